@@ -17,7 +17,7 @@ ASSUMPTIONS = [
     "stop() is modelled as arriving while the worker sits in wait(): the final wait runs to its end in virtual time; a breaker set while the handler runs is seen at the next wait (same code path)",
 ]
 MANIFEST = {
-    "text": "Lean 4 theorems over a transition-system model of the clock loop under a virtual monotonic clock, for all handler-duration scripts, start frames, positive indication periods, link lists and tick periods: tick_spacing (T(k+1)-T(k) = max t_tick d_k), no_catch_up, no_drift / no_drift_from, resync_after_overrun, tick_time (closed form), first_tick, wait_argument, fn_sequence (incl. 2715647 -> 0), ind_iff_period, handler_once_per_tick, indication_wellformed, restart / restart_after_history, no_second_thread, runs_every_tick, period_zero_raises, and t_tick_is_frame / clck_consts over constants measured on the running code; the model is compared with the real start()/stop()/_worker/send_clck_ind event by event under the same virtual clock; an independent Python oracle states the property on the real code's observations",
+    "text": "Lean 4 theorems over a transition-system model of the clock loop under a virtual monotonic clock, for all handler-duration scripts, start frames, positive indication periods, link lists and tick periods: tick_spacing (T(k+1)-T(k) = max t_tick d_k), no_catch_up, no_drift / no_drift_from, resync_after_overrun, tick_time (closed form), first_tick, wait_argument, fn_sequence (incl. 2715647 -> 0), ind_iff_period, ind_to_links_attached_at_tick (clck_links appended to / removed from in place between two ticks: the indication goes to exactly the links the list holds when the tick fires), links_do_not_influence_timing, constant_links, handler_once_per_tick, indication_wellformed, restart / restart_after_history, no_second_thread, runs_every_tick, period_zero_raises, and t_tick_is_frame / clck_consts over constants measured on the running code; the model is compared with the real start()/stop()/_worker/send_clck_ind event by event under the same virtual clock; an independent Python oracle states the property on the real code's observations",
     "note": "proof of the loop logic under a virtual clock, partial for real time: OS jitter, thread scheduling and threading.Event.wait accuracy cannot be exhibited by the model (the baseline's own wall-clock test is always_fail in the sandbox for that reason). trusted: Lean kernel (+propext, Classical.choice, Quot.sound), gen/clck.py, harness/py/clck_harness.py (virtual clock, scripted Event, synchronous Thread substituted for clck_gen.time / clck_gen.threading). F4 (t_tick = 4614999 ns by float floor division) confirmed on the real code and repaired by a fix: commit; on an unfixed tree t_tick_is_frame does not build and the oracle reports the measured spacing",
     "technique": "Lean 4 proof (induction over the tick list, omega) over a virtual-clock transition system; differential correspondence of complete event logs with the real code; measured constants",
     "design_ref": "DESIGN.md section 5 C09, section 7 F4",
@@ -141,6 +141,44 @@ def run_line(rng, tt, domain_only=False):
     return "clck.run %d %d %d %d %s %s" % (t0_value(rng), start, period, handler, csv(links), csv(dur_pattern(rng, tt, n)))
 
 
+def links_line(rng, tt):
+    """clck_links modified in place (append / remove) while the worker sleeps, as power_event_handler does"""
+    period = rng.choice([1, 1, 2, 3, 51, period_value(rng)]) or 1
+    start = start_value(rng, period)
+    if rng.randrange(3) == 0:
+        start = (rng.randrange(0, 40) * period) % H       # many due frames
+    n = rng.choice([1, 2, 3, 5, 8, 13, rng.randrange(1, 40)])
+    links = list(rng.choice(LINKSETS))
+    chs = []
+    for _ in range(rng.choice([0, 1, 1, 2, 3, 6])):
+        k = rng.randrange(0, n + 1)
+        if rng.randrange(2):
+            chs.append("%d+%d" % (k, rng.randrange(0, 6)))
+        else:
+            chs.append("%d-%d" % (k, rng.choice(links) if links and rng.randrange(4) else rng.randrange(0, 6)))
+    return "clck.links %d %d %d %d %s %s %s" % (t0_value(rng), start, period, 1 if rng.randrange(6) else 0, csv(links),
+                                               csv(dur_pattern(rng, tt, n)), ",".join(chs) or "-")
+
+
+def links_at_ticks(links, changes, n):
+    """the property's reading of 'every attached link': the list as it is when the tick fires"""
+    cur = list(links)
+    out = []
+    chs = [] if changes == "-" else changes.split(",")
+    for k in range(n):
+        for ch in chs:
+            if "+" in ch:
+                kk, i = ch.split("+")
+                if int(kk) == k:
+                    cur.append(int(i))
+            else:
+                kk, i = ch.split("-")
+                if int(kk) == k and int(i) in cur:
+                    cur.remove(int(i))
+        out.append(list(cur))
+    return out
+
+
 def hist_line(rng, tt, domain_only=False):
     period = period_value(rng)
     start = start_value(rng, period)
@@ -216,6 +254,7 @@ def correspond(run, corr):
     reqs = fixed_lines(tt)
     reqs += [run_line(run.rng, tt) for _ in range(n)]
     reqs += [hist_line(run.rng, tt) for _ in range(n // 4)]
+    reqs += ["clck.links 0 0 1 1 3 0,0,0,0 2+7,3-3"] + [links_line(run.rng, tt) for _ in range(n // 4)]
     if run.thorough:
         # long runs through the hyperframe wrap: 20000 ticks each, every indication of 196 periods
         for start, period, ds in ((H - 10000, 102, [0]), (H - 19999, 51, [tt // 2, tt + 1, 0]), (H - 1, 1, [tt - 1, tt])):
@@ -265,7 +304,7 @@ def parse_events(txt):
     return ev
 
 
-def check_session(ev, start, period, links, handler, durs):
+def check_session(ev, start, period, links, handler, durs, links_at=None):
     """THE PROPERTY, stated on the observations of one start()..stop() run of the real code.
     Independent of the Lean model.  Returns None or a dict describing the first failure."""
     n = len(durs)
@@ -299,7 +338,7 @@ def check_session(ev, start, period, links, handler, durs):
         elif calls:
             return {"what": "handler call without handler", "tick": k}
         # 'IND CLOCK <fn>\0' to every attached link exactly at frames divisible by the period
-        want = [(l, b"IND CLOCK %d\x00" % fn) for l in links] if fn % period == 0 else []
+        want = [(l, b"IND CLOCK %d\x00" % fn) for l in (links if links_at is None else links_at[k])] if fn % period == 0 else []
         got = [(e[1], e[3]) for e in sends]
         if got != want:
             return {"what": "indications", "tick": k, "fn": fn, "period": period,
@@ -347,6 +386,16 @@ def oracle_line(req, ans):
             return {"what": "start() raised %s" % body}
         body = "" if body.startswith("T") else body
         return check_session(parse_events(body), start, period, links, handler, parse_csv(tok[6]))
+    if tok[0] == "clck.links":
+        body = ans.rsplit(" T", 1)[0] if " T" in ans else ans
+        if body.startswith("EXC"):
+            return {"what": "start() raised %s" % body}
+        body = "" if body.startswith("T") else body
+        durs = parse_csv(tok[6])
+        f = check_session(parse_events(body), start, period, links, handler, durs, links_at=links_at_ticks(links, tok[7], len(durs)))
+        if f and f["what"] == "indications":
+            f["what"] = "indications after a link was attached or detached while the generator runs"
+        return f
     # history: every start() that is executed while no thread exists must behave like a fresh run
     cur_start = start
     thread = False
@@ -382,6 +431,7 @@ def oracle_requests(run, deep):
     reqs += fixed_lines(tt)
     reqs += [run_line(run.rng, tt, domain_only=True) for _ in range(n)]
     reqs += [hist_line(run.rng, tt, domain_only=True) for _ in range(n // 4)]
+    reqs += ["clck.links 0 0 1 1 3 0,0,0,0 2+7,3-3"] + [links_line(run.rng, tt) for _ in range(n // 4)]
     return reqs
 
 
